@@ -47,7 +47,7 @@ class C04(DiffProperty):
     harness_env = dict(ASAN_ENV, ASAN_OPTIONS=ASAN_ENV["ASAN_OPTIONS"]
                        + ":symbolize=0:malloc_fill_byte=190:max_malloc_fill_size=1048576")
     quick_n = 3000
-    thorough_n = 120000
+    thorough_n = 300000
     rule = ("a case = a history of 1-25 operations over 4 array handles and 2 slice handles, all starting without a buffer; "
             "operations: append (data / zero), insert, typed set (offset from start or end), slice (with and without a store), "
             "reserve (raw / char / 4-byte elements), clone, clear, reduce, the in-place mpt_buffer_insert/cut/set (private "
@@ -67,16 +67,22 @@ class C04(DiffProperty):
     trusted = ["harness/c04_array.c reads every handle back from the header fields and the bytes behind the header, "
                "not through the library; it includes buffer_alloc.c to see struct bufferData",
                "vsnprintf(\"%s\") is modelled as bounded copy + NUL; malloc succeeds; fresh heap memory reads as the ASan fill byte 0xbe"]
-    level_text = ("proof: Coq theorems over the transcribed mechanism (heap of reference-counted buffers + handles): for EVERY "
-                  "state satisfying the heap invariant and every operation, the value read through the target handle is exactly "
-                  "the plain vector operation of coq/C04/ArraySpec.v, every other handle reads what it read before, the reference "
-                  "count of every buffer equals the number of handles on it, no model access leaves the block, refused operations "
-                  "change no value; lifted to all histories by induction (no bound on handles, lengths or history length). "
+    level_text = ("proof: Coq theorems C04_cow_step / C04_others_unchanged / C04_cow_histories / C04_refused_unchanged / "
+                  "C04_model_no_fault / C04_ref_inv over the transcribed mechanism (heap of reference-counted buffers + array and "
+                  "slice handles): for EVERY state satisfying the heap invariant and every one of the 16 modelled operations (append, "
+                  "insert, typed set, slice, reserve, clone/clear, reduce, in-place buffer insert/cut/set, printf, string, new buffer, "
+                  "flags, slice creation, slice write), the value read through the target handle is exactly the plain vector "
+                  "operation of coq/C04/ArraySpec.v (gaps zero, lengths exact), every other handle reads what it read before, the "
+                  "reference count of every buffer equals the number of handles on it, no model access leaves the block, refused "
+                  "operations change no value; lifted to all histories by induction (no bound on handles, lengths, history length). "
                   "The model is tied to the code on every run by differential execution under ASan/UBSan")
-    level_note = ("trusted: Coq kernel; hand transcription of mptcore/array/*.c (validated by the correspondence run, not verified); "
-                  "extraction + OCaml driver; harness. See docs/notes_C04.md for the list of theorems and which operations are "
-                  "covered by the step theorem (names ending in _partial are restricted as stated there). C++ templates of "
-                  "mpt++/array.cpp are not covered.")
+    level_note = ("full strength for the C API on raw and POD-typed buffers; all theorems closed under the global context. Trusted: Coq "
+                  "kernel; hand transcription of mptcore/array/*.c (validated by the correspondence run, not verified); extraction + "
+                  "OCaml driver; harness. The specification is told (hint_of) the NoCopy/shared/immutable flags and capacity of the "
+                  "target's buffer where the interface leaves the verdict to them (NoCopy refusal, capacity precondition of the "
+                  "in-place mpt_buffer_* functions, partial slice writes). Not covered: the C++ templates of mpt++/array.cpp (array, "
+                  "slice, typed_array, unique_array, pointer_array, map) - neither modelled nor driven; buffers with init/fini "
+                  "callbacks (C05); malloc failure paths. See docs/notes_C04.md.")
     technique = "Coq refinement proof (refcounted buffer heap -> value vectors) + differential correspondence check"
     assumptions = ["malloc succeeds", "buffers carry no init/fini callbacks (raw or POD element types)",
                    "vsnprintf(\"%s\") copies at most cap-1 bytes, stores a NUL and returns the text length"]
